@@ -1,17 +1,57 @@
-//! C10 / C08: `signed_area` (argument order, lossless widening of f32 to f64) on a large exact domain:
-//! fixed-point coordinates m * 2^-10 with |m| < 2^22 (all representable in f32).  For such inputs the
-//! determinant's differences (<= 23 bits), products (<= 46 bits) and final difference are exact in
-//! f64, so the plain determinant standing in for `robust::orient2d` is exact, and the harness's own
-//! i64 determinant is the reference for the sign.
+//! C10: `signed_area` - the orientation predicate must be evaluated in f64 on losslessly widened
+//! coordinates, in the argument order (p0, p1, p2).  `robust::orient2d` is replaced by a recorder that
+//! stores the six f64 values it receives and answers with an arbitrary value; the harness asserts that
+//! exactly the widened inputs arrive, in order, and that the answer is handed back unchanged - for ALL
+//! finite f32 / f64 inputs (full range).  Any arithmetic done in the coordinate type before widening
+//! (e.g. a filter evaluated in f32) bypasses or alters the call and is reported.
 use super::super::helper::Float;
 use super::super::signed_area::signed_area;
 use geo_types::Coord;
 
-fn fx() -> (i64, f32) {
-    let m: i32 = kani::any();
-    kani::assume(m > -(1 << 22) && m < (1 << 22));
-    (m as i64, (m as f32) * (1.0 / 1024.0))
+static mut ARGS: [f64; 6] = [0.0; 6];
+static mut CALLS: u8 = 0;
+static mut ANSWER: f64 = 0.0;
+
+pub fn orient2d_recorder<T: Into<f64>>(pa: robust::Coord<T>, pb: robust::Coord<T>, pc: robust::Coord<T>) -> f64 {
+    unsafe {
+        ARGS = [pa.x.into(), pa.y.into(), pb.x.into(), pb.y.into(), pc.x.into(), pc.y.into()];
+        CALLS += 1;
+        ANSWER
+    }
 }
+fn forwards<F: Float + kani::Arbitrary>() {
+    let v: [F; 6] = [kani::any(), kani::any(), kani::any(), kani::any(), kani::any(), kani::any()];
+    kani::assume(v[0].is_finite() && v[1].is_finite() && v[2].is_finite() && v[3].is_finite() && v[4].is_finite() && v[5].is_finite());
+    let ans: f64 = kani::any();
+    kani::assume(!ans.is_nan());
+    unsafe {
+        CALLS = 0;
+        ANSWER = ans;
+    }
+    let r = signed_area(Coord { x: v[0], y: v[1] }, Coord { x: v[2], y: v[3] }, Coord { x: v[4], y: v[5] });
+    let w: [f64; 6] = [v[0].into(), v[1].into(), v[2].into(), v[3].into(), v[4].into(), v[5].into()];
+    assert!(unsafe { CALLS } == 1, "signed_area evaluates the robust predicate exactly once (no arithmetic of its own in the coordinate type)");
+    let a = unsafe { ARGS };
+    assert!(
+        a[0] == w[0] && a[1] == w[1] && a[2] == w[2] && a[3] == w[3] && a[4] == w[4] && a[5] == w[5],
+        "the predicate receives the losslessly widened coordinates of (p0, p1, p2) in that order"
+    );
+    assert!(r == ans, "the predicate's value is returned unchanged");
+    kani::cover!(v[0] != v[2] && v[1] != v[3], "generic triple");
+}
+#[kani::proof]
+#[kani::unwind(3)]
+#[kani::stub(robust::orient2d, orient2d_recorder)]
+fn signed_area_forwards_f32() {
+    forwards::<f32>()
+}
+#[kani::proof]
+#[kani::unwind(3)]
+#[kani::stub(robust::orient2d, orient2d_recorder)]
+fn signed_area_forwards_f64() {
+    forwards::<f64>()
+}
+
 fn sign(v: f64) -> i32 {
     if v > 0.0 {
         1
@@ -21,36 +61,16 @@ fn sign(v: f64) -> i32 {
         0
     }
 }
-fn sa_body<F: Float>(conv: fn(f32) -> F) {
-    let (ax, fax) = fx();
-    let (ay, fay) = fx();
-    let (bx, fbx) = fx();
-    let (by, fby) = fx();
-    let (cx, fcx) = fx();
-    let (cy, fcy) = fx();
-    let r = signed_area(Coord { x: conv(fax), y: conv(fay) }, Coord { x: conv(fbx), y: conv(fby) }, Coord { x: conv(fcx), y: conv(fcy) });
-    // orient2d(pa, pb, pc) = (pa.x - pc.x)(pb.y - pc.y) - (pa.y - pc.y)(pb.x - pc.x)
-    let det: i64 = (ax - cx) * (by - cy) - (ay - cy) * (bx - cx);
-    let want = if det > 0 { 1 } else if det < 0 { -1 } else { 0 };
-    assert!(sign(r) == want, "signed_area has the exact sign of the determinant of (p0, p1, p2) in that order");
-    kani::cover!(det == 0 && ax != bx && ay != by, "collinear, not axis-parallel");
-    kani::cover!(det != 0 && det > -4 && det < 4, "nearly collinear");
-}
-fn id32(v: f32) -> f32 {
-    v
-}
-fn wide(v: f32) -> f64 {
-    v as f64
-}
+/// argument order against an integer reference: positive iff p2 is to the left of p0 -> p1
 #[kani::proof]
 #[kani::unwind(3)]
 #[kani::stub(robust::orient2d, super::common::orient2d_stub)]
-fn signed_area_fix_f32() {
-    sa_body::<f32>(id32)
-}
-#[kani::proof]
-#[kani::unwind(3)]
-#[kani::stub(robust::orient2d, super::common::orient2d_stub)]
-fn signed_area_fix_f64() {
-    sa_body::<f64>(wide)
+fn signed_area_orientation() {
+    let i = |v: i8| v as f64;
+    let (ax, ay, bx, by, cx, cy): (i8, i8, i8, i8, i8, i8) = (kani::any(), kani::any(), kani::any(), kani::any(), kani::any(), kani::any());
+    kani::assume(ax > -8 && ax < 8 && ay > -8 && ay < 8 && bx > -8 && bx < 8 && by > -8 && by < 8 && cx > -8 && cx < 8 && cy > -8 && cy < 8);
+    let r = signed_area(Coord { x: i(ax), y: i(ay) }, Coord { x: i(bx), y: i(by) }, Coord { x: i(cx), y: i(cy) });
+    let det: i32 = (ax as i32 - cx as i32) * (by as i32 - cy as i32) - (ay as i32 - cy as i32) * (bx as i32 - cx as i32);
+    assert!(sign(r) == if det > 0 { 1 } else if det < 0 { -1 } else { 0 }, "signed_area(p0,p1,p2) has the sign of the determinant in that argument order");
+    kani::cover!(det == 0 && ax != bx, "collinear");
 }
